@@ -392,6 +392,75 @@ def result_table(nodes, paths, only=None):
     return out
 
 
+REVISION_SETS = [
+    ['class A:\n\tdef __init__(self) -> None:\n\t\tself.x = 1\n', 'class A:\n\tdef setup(self) -> None:\n\t\tself.x = 1\n'],
+    ['class A:\n\tdef __init__(self, n: int) -> None:\n\t\tself.a = n\n\t\tself.b = n\n\n\tdef get(self) -> int:\n\t\treturn self.a\n',
+     'class A:\n\tdef prepare(self, n: int) -> None:\n\t\tself.a = n\n\t\tself.b = n\n\n\tdef __init__(self) -> None:\n\t\treturn self.a\n'],
+    ['def f(a: int) -> int:\n\tx = a\n\treturn x\n', 'def f(a: int) -> int:\n\ta = a\n\treturn a\n'],
+]
+
+
+def _fork_call(fn):
+    """Run fn() in a forked child (a process that has resolved nothing else since the fork); returns its JSON-able result."""
+    import json as _json
+    import os as _os
+    r, w = _os.pipe()
+    pid = _os.fork()
+    if pid == 0:
+        code = 0
+        try:
+            _os.close(r)
+            _os.write(w, _json.dumps(fn()).encode())
+        except BaseException as e:  # noqa
+            try:
+                _os.write(w, _json.dumps({'__error__': f'{type(e).__name__}: {e}'}).encode())
+            except Exception:  # noqa
+                code = 3
+        finally:
+            _os._exit(code)
+    _os.close(w)
+    data = b''
+    while True:
+        chunk = _os.read(r, 65536)
+        if not chunk:
+            break
+        data += chunk
+    _os.close(r)
+    _os.waitpid(pid, 0)
+    return _json.loads(data.decode()) if data else {'__error__': 'child died'}
+
+
+def _table_of_text(text):
+    from rogw.tranp.implements.syntax.lark.entry import EntryOfLark
+    from rogw.tranp.syntax.ast.finder import ASTFinder
+    root = EntryOfLark(_state['lark'].parse(text))
+    paths = list(ASTFinder().full_pathfy(root).keys())
+    return class_table(make_nodes(root, real_mapping)[0], paths)
+
+
+def revision_layer():
+    """Revisions of one module: texts of the same shape handled one after the other by one process under one module path
+    (what a reloaded module is for the node resolver). The classes chosen for a revision equal those a process chooses
+    that has seen nothing but that revision. Returns (histories, violations)."""
+    viol, n = [], 0
+    for texts in REVISION_SETS:
+        ref = [_fork_call(lambda t=t: _table_of_text(t)) for t in texts]
+        for order in itertools.permutations(range(len(texts))):
+            for seq in (list(order), list(order) + [order[0]]):
+                n += 1
+                got = _fork_call(lambda seq=seq: [_table_of_text(texts[i]) for i in seq])
+                if isinstance(got, dict):
+                    viol.append((['revision-history', 'raises'], f'{got}', {'revisions': texts, 'order': seq}))
+                    continue
+                for k, i in enumerate(seq):
+                    if got[k] != ref[i]:
+                        bad = [p for p in ref[i] if got[k].get(p) != ref[i][p]][0]
+                        viol.append((['class-depends-on-history', f'{ref[i][bad]}->{got[k].get(bad)}', 'after=earlier-revision'],
+                                     f'revision {i} handled after revisions {seq[:k]} of the same module path: {bad} resolves to {got[k].get(bad)}, alone to {ref[i][bad]}', {'revisions': texts, 'order': seq}))
+                        break
+    return n, viol
+
+
 def order_worker(task):
     """One source text: explore prior-query sequences up to depth; compare full class tables."""
     from rogw.tranp.implements.syntax.lark.entry import EntryOfLark
@@ -527,6 +596,9 @@ def run(ctx):
         states += st
         transitions += tr
         ctx.merge(viol)
+    _init_worker()
+    n_rev, rviol = revision_layer()
+    ctx.merge(rviol)
     ctx.log(f'part B: {judged} parse trees, {states} resolver states, {transitions} transitions')
     # ---- real modules: pluck/full_pathfy bijection on every real tree
     rres = pool.pmap(real_worker, [src for _, _, src in corpus.real_modules()], workers=ctx.workers, init=_init_worker, rotate=ctx.seed)
@@ -545,8 +617,9 @@ def run(ctx):
         'labelled_trees': trees,
         'real_tree_entries': real_entries,
         'parse_trees_explored': judged,
+        'revision_histories': n_rev,
         'exhaustive': True,
-        'bound': f'part A: all labelled ordered trees with <= {n_max} entries; part B: all prior-query sequences of length <= {depth} over {len(OPS)} query kinds x every path (length 1 for trees with more than {9 if ctx.quick else 14} entries), class table read in both directions; after every single prior query the answers of {RESULT_QUERIES} for every path equal those of a Nodes object that never answered anything else',
+        'bound': f'part A: all labelled ordered trees with <= {n_max} entries; part B: all prior-query sequences of length <= {depth} over {len(OPS)} query kinds x every path (length 1 for trees with more than {9 if ctx.quick else 14} entries), class table read in both directions; after every single prior query the answers of {RESULT_QUERIES} for every path equal those of a Nodes object that never answered anything else; revision layer: {n_rev} histories over {len(REVISION_SETS)} sets of same-shaped texts handled by one process under one module path, class tables equal to those of a process that has seen only that text',
         'evaluations': trees + transitions,
         'distinct_nontrivial': trees,
         'rule': 'non-trivial tree = at least 2 entries; distinct by construction (enumeration without repetition)',
@@ -589,6 +662,9 @@ def real_worker(src):
 def replay(ctx, data):
     if 'tree' in data:
         ctx.merge(check_tree(data['tree'], 'replay'))
+    elif 'revisions' in data:
+        _init_worker()
+        ctx.merge(revision_layer()[1])
     elif 'prior' in data:
         _init_worker()
         from rogw.tranp.implements.syntax.lark.entry import EntryOfLark
